@@ -23,7 +23,7 @@ ASSUMPTIONS = ['instantiation maps whose textbook result is undefined only throu
 FLOORS = {'quick': {'mp:applicable': 1000, 'mp:inapplicable:antecedent_mismatch': 1000, 'mp:inapplicable:not_implication': 300, 'mp:implication_only_after_expansion': 300,
                     'gen:applicable': 1000, 'gen:inapplicable:variable_free': 1000, 'gen:inapplicable:not_implication': 200, 'gen:hidden_under_notation': 300,
                     'inst:applicable': 1000, 'inst:inapplicable:constraint': 300, 'inst:inapplicable:capture': 100, 'inst:partial_node_premise': 100, 'driver:basic': 3000, 'driver:stateful': 1500, 'driver:proofexp': 1500, 'driver:instopt(basic)': 1000, 'driver:memo(basic)': 1000,
-                    'inst:plug_is_same_number_metavariable': 300, 'mp:same_definition_other_keys:different': 1000, 'mp:same_definition_other_keys:equal': 200}}
+                    'inst:plug_is_same_number_metavariable': 300, 'mp:same_definition_other_keys:different': 1000, 'mp:same_definition_other_keys:equal': 200, 'session:instantiations': 3000, 'session:step_flips_previous_arguments': 500}}
 FLOORS['thorough'] = dict(FLOORS['quick'])
 
 
@@ -344,6 +344,83 @@ def shard(ctx):
                     ctx.violation(f'inst_returns_on_capture:{fam}_binder', 'instantiate returned a conclusion although resolving a pending substitution captures', w)
         if k % 3000 == 0:
             ctx.sample({'rule': rule, 'driver': driver})
+    sessions(ctx, rng, D)
+
+
+FLIP = {'ev': 'sv', 'sv': 'ev', 'im': 'ap', 'ap': 'im', 'ex': 'mu', 'mu': 'ex'}
+
+
+def flip(e, rng, p=1.0):
+    """the same tree with constructors exchanged pairwise (element/set variable, implication/application, exists/mu): a different pattern
+    whose fields are identical"""
+    k = e[0]
+    k2 = FLIP.get(k, k) if rng.random() < p else k
+    if k in ('ev', 'sv'):
+        return (k2, e[1])
+    if k in ('im', 'ap'):
+        return (k2, flip(e[1], rng, p), flip(e[2], rng, p))
+    if k in ('ex', 'mu'):
+        return (k2, e[1], flip(e[2], rng, p))
+    return e
+
+
+def sessions(ctx, rng, D):
+    """many rule applications on ONE interpreter object (the other workload uses a fresh interpreter per call): every call must still yield the
+    documented conclusion, whatever was instantiated / concluded on that object before - in particular right after a call whose arguments
+    differ only in the constructors at some positions"""
+    P = D.P
+    schemas = {'prop1': tb.im(tb.mv(0), tb.im(tb.mv(1), tb.mv(0))),
+               'prop2': tb.im(tb.im(tb.mv(0), tb.im(tb.mv(1), tb.mv(2))), tb.im(tb.im(tb.mv(0), tb.mv(1)), tb.im(tb.mv(0), tb.mv(2)))),
+               'prop3': tb.im(tb.im(tb.im(tb.mv(0), tb.BOT), tb.BOT), tb.mv(0))}
+    for _s in range(ctx.scale(1600, 40000)):
+        kind = rng.choice(('stateful', 'basic', 'memo(stateful)'))
+        if kind == 'basic':
+            it = D.B.BasicInterpreter(D.I.ExecutionPhase.Proof)
+        else:
+            it = D.S.StatefulInterpreter(D.I.ExecutionPhase.Proof)
+            if kind.startswith('memo'):
+                it = repo.mod('optimizing_interpreters').MemoizingInterpreter(it)
+        ctx.count('session:' + kind)
+        prev = None
+        for _step in range(rng.randint(2, 6)):
+            which = rng.choice(('prop1', 'prop1', 'prop2', 'prop3'))
+            ids = sorted(tb.metavar_ids(schemas[which]))
+            if prev is not None and prev[0] == which and rng.random() < 0.7:
+                delta_e = {i: (flip(v, rng, rng.choice((1.0, 0.5))) if rng.random() < 0.7 else v) for i, v in prev[1].items()}
+                ctx.count('session:step_flips_previous_arguments')
+            else:
+                delta_e = {i: gp.rand_concrete(rng, rng.randint(0, 2), wf=False) for i in ids if rng.random() < 0.85}
+            if not delta_e:
+                continue
+            try:
+                exp = tb.inst(schemas[which], delta_e, 'strict', check='doc')
+            except tb.Undefined:
+                continue
+            prev = (which, delta_e)
+            ctx.case(('session', which, tuple(sorted((i, tb.show(v)) for i, v in delta_e.items()))), nontrivial=True)
+            ctx.count('session:instantiations')
+            try:
+                delta = {i: it.pattern(tb.to_repo(v, P)) for i, v in delta_e.items()}
+                pr = getattr(it, which)()
+                got = tb.norm_py(tb.of_repo(it.instantiate(pr, delta).conclusion, 'strict'))
+                if hasattr(it, 'pop'):
+                    try:
+                        it.pop(it.stack[-1]) if getattr(it, 'stack', None) else None
+                    except Exception:
+                        pass
+            except AssertionError as ex:
+                ctx.violation('inst_refuses_when_applicable:session', 'instantiate refused an admissible instantiation on a reused interpreter',
+                              {'interpreter': kind, 'schema': which, 'delta': {str(i): tb.pretty(v) for i, v in delta_e.items()}, 'error': str(ex)[:200]})
+                break
+            except Exception as ex:
+                ctx.violation('inst_unexpected_exception:session', f'instantiate raised {type(ex).__name__} on a reused interpreter',
+                              {'interpreter': kind, 'schema': which, 'delta': {str(i): tb.pretty(v) for i, v in delta_e.items()}, 'error': repr(ex)[:200]})
+                break
+            if got != tb.norm_py(exp):
+                ctx.violation('inst_wrong_conclusion:session', 'instantiate on a reused interpreter returned a conclusion different from the documented instantiation',
+                              {'interpreter': kind, 'schema': which, 'delta': {str(i): tb.pretty(v) for i, v in delta_e.items()}, 'expected': tb.pretty(exp), 'got': tb.pretty(got),
+                               'previous_call': None if prev is None else {str(i): tb.pretty(v) for i, v in prev[1].items()}})
+                break
 
 
 def _definite(conc_e, delta_e):
